@@ -275,9 +275,10 @@ def decide_goal(ob, name, conds, goal, *, timeout_s=30, seed=0, oracle=None, arg
             if all(k in domain for k in fv):
                 envs += sample_envs(fv, {k: domain[k] for k in fv}, list(num_conds) + [z3.Not(goal)], n=4, seed=seed,
                                     extra_points=extra_points)
-        if not envs:
-            envs = [{}]      # no model (solver unknown): the oracle's own stress inputs are still replayed
-        for env in envs[:5]:
+        envs = envs[:4] + [{}]      # last: no model values at all - the oracle's own stress inputs are replayed
+        for env in envs:
+            if over_budget() and tried is not None:
+                break
             args = args_from_model(env)
             if args is None:
                 continue
